@@ -39,6 +39,7 @@ struct OpWindow {
 struct SaKnobs {
   int backend = BE_DIRECT;
   int realloc_mode = 0;     // 0 natural / always move for arena+direct(move), 1 in place when it fits
+  bool pack = false;        // arena: blocks back to back with no gap (a header-less size-class allocator does that)
   int fill = 0xAA;          // what fresh memory contains (any content is legal for an allocator): 0xAA, 0x00, 0xFF
   uint64_t max_request = (uint64_t)64 << 20;  // a single request above this is refused (kind "toolarge")
 };
@@ -75,6 +76,7 @@ uint64_t sa_arena_offset(int idx, const void* p);
 
 // end-of-run integrity (canaries, 0xDD fill of released arena blocks). Records violations itself.
 void sa_check_integrity();
+void sa_set_max_request(uint64_t n);   // temporarily widen the single-request cap (growth marathons)
 
 // fault accounting for evidence: fired counts per kind since process start
 extern uint64_t sa_fired[8];
